@@ -811,6 +811,26 @@ func coerceMap(m map[string]interface{}) map[string]interface{} {
 	return c
 }
 
+// driverValueMap converts the values of a filter, or of a row's columns, into the
+// driver.Value that the column's Valuer sends to the database, so that values
+// denoting the same column value (int and int64, value and pointer, named types)
+// compare equal. This is the conversion the row tester applies as well.
+func (t *Table) driverValueMap(m map[string]interface{}) (map[string]interface{}, error) {
+	c := make(map[string]interface{}, len(m))
+	for k, v := range m {
+		column, ok := t.ColumnsByName[k]
+		if !ok {
+			return nil, fmt.Errorf("unknown column %s", k)
+		}
+		value, err := column.Descriptor.Valuer(reflect.ValueOf(v)).Value()
+		if err != nil {
+			return nil, err
+		}
+		c[k] = value
+	}
+	return c, nil
+}
+
 func (t *tester) Test(row interface{}) bool {
 	if row == nil {
 		return false
